@@ -77,6 +77,18 @@ Theorem C19_summary_rounding :
   forallb (fun s => (3 <=? fst (snd s))%Z) pq_snap_sites = true.
 Proof. vm_compute. split; reflexivity. Qed.
 
+(* what is converted: the luminance handed to nits_to_pq at every generating site is the value the documents
+   give (target peak and minimum in nits, mastering peak, mastering minimum in 1/10000 nits, L2 target nits,
+   HDR10+ scene peak / average rounded to a nit) - not a re-quantised copy of it (regenerated) *)
+Theorem C19_conversion_arguments :
+  nits_to_pq_args =
+  [("dolby_vision/src/xml/parser.rs"%string,
+    ["min_display_mastering_luminance as f64 / 10000.0"%string; "max_display_mastering_luminance as f64"%string;
+     "target.peak_nits.into()"%string; "target.min_nits"%string]);
+   ("dolby_vision/src/rpu/extension_metadata/blocks/level2.rs"%string, ["target_nits.into()"%string]);
+   ("src/dovi/generator.rs"%string, ["max_nits.round()"%string; "avg_nits.round()"%string])].
+Proof. vm_compute. reflexivity. Qed.
+
 Print Assumptions C19_nits_table_correct.
 Print Assumptions C19_code_table_correct.
 Print Assumptions C19_roundtrip_codes.
